@@ -168,7 +168,7 @@ func c01Decos(base *XElem, thorough bool) []Deco {
 	els := base.elems()
 	attrNames := []string{"x", "y", "x-y", "n:x", "X", "a"}
 	attrVals := []string{"v", "1", " v ", "<&\"'>", "it's", "\"q\""}
-	textVals := []string{"t", " t ", "1", "true", "a&b<c>", "\tt\n", "x y", "it's", "\"q\""}
+	textVals := []string{"t", " t ", "1", "1.5", "true", "a&b<c>", "\tt\n", "x y", "it's", "\"q\""}
 	renames := []string{"B", "a-b", "a_b", "n:a", "A"}
 	for i, e := range els {
 		nk := len(e.Items)
@@ -228,6 +228,15 @@ func c01OutOfUniverse(doc *XElem) bool {
 	return false
 }
 
+// c01CastCfgs: cast sub-option combinations (the flags must be independent of each other).
+func c01CastCfgs() []Cfg {
+	var out []Cfg
+	for bits := 0; bits < 8; bits++ {
+		out = append(out, Cfg{AttrPrefix: "-", KeyPrefix: "#", Cast: true, CastInt: bits&1 != 0, NoFloat: bits&2 != 0, NoBool: bits&4 != 0})
+	}
+	return out
+}
+
 func c01Cfgs(maxDev int) []Cfg {
 	var out []Cfg
 	for _, ap := range []string{"-", "", "@"} {
@@ -258,7 +267,7 @@ func c01Cfgs(maxDev int) []Cfg {
 
 func c01Run(c *Ctx) {
 	mustBeDefault(c)
-	c.S.Rule = "cases = (document, rendering, configuration): documents are all element trees with <= N elements (child names over {a,b}, fan-out <= 3) decorated with <= D decorations (attribute incl. namespaced/case/snake variants and a name colliding with a child under an empty prefix; one text run at every position, plain or CDATA, with blanks/specials/number and boolean look-alikes; comment / processing instruction at every position; renamed element: case, hyphen/underscore, namespace prefix); every document x all 768 configurations (3 attribute prefixes x 2 key prefixes x 2^7 of lower, snake, simple-as-map, keep-spaces, seq numbers, decoder escaping, cast) for <= 1 decoration, and x all configurations with <= 2 option deviations for 2 decorations; rendering variants (empty-element form, quoting, blanks in tags, inter-element whitespace, prolog, character references) explored one deviation at a time. non-trivial = expected Map contains a list, a text key or an attribute."
+	c.S.Rule = "cases = (document, rendering, configuration): documents are all element trees with <= N elements (child names over {a,b}, fan-out <= 3) decorated with <= D decorations (attribute incl. namespaced/case/snake variants and a name colliding with a child under an empty prefix; one text run at every position, plain or CDATA, with blanks/specials/number and boolean look-alikes; comment / processing instruction at every position; renamed element: case, hyphen/underscore, namespace prefix); every document x all 768 configurations (3 attribute prefixes x 2 key prefixes x 2^7 of lower, snake, simple-as-map, keep-spaces, seq numbers, decoder escaping, cast) for <= 1 decoration, and x all configurations with <= 2 option deviations for 2 decorations; plus all 8 combinations of the cast-to-int/float/bool sub-options with the cast flag on; rendering variants (empty-element form, quoting, blanks in tags, inter-element whitespace, prolog, character references) explored one deviation at a time. non-trivial = expected Map contains a list, a text key or an attribute."
 	c.S.Assumptions = []string{"reference decode conventions in harness/ref_xml.go, computed from the abstract tree", "_seq accepted as int or digit string", "attribute values containing tab/newline are rendered as character references"}
 	maxElems, maxElems2 := 4, 3
 	if c.Thorough {
@@ -358,6 +367,7 @@ func c01Run(c *Ctx) {
 	}
 	run(allCfgs, docsA, "A")
 	run(cfgs2, docsB, "B")
+	run(c01CastCfgs(), docsA, "A-cast-suboptions")
 	// map-order: the decoder only ranges over singleton maps; explore reverse order on phase A / default cfg anyway
 	rt.OrderPolicy = rt.PolicyReverse
 	run(c01Cfgs(1), docsA, "A-reverse-order")
